@@ -165,7 +165,7 @@ def run(ctx):
         lens = list(range(65538))
         pack_lens = sorted(set(range(0, 65538, 7)) | edges | set(range(28, 600)))
         trans_lens = sorted(edges | {rng.randrange(12, 65538) for _ in range(500)})
-        nsim, nstreams, sruns, sk, te = 3000, 6000, 200, 16, 97
+        nsim, nstreams, sruns, sk, te = 10000, 20000, 300, 16, 29
     else:
         lens = sorted(edges | set(range(0, 300)) | {rng.randrange(65538) for _ in range(1500)})
         pack_lens = sorted(edges | set(range(12, 60)) | {rng.randrange(28, 65538) for _ in range(150)})
